@@ -460,6 +460,13 @@ def member_update_suppression_is_always_lifted(ctx):
         for inc in incs:
             n += 1
             ok = bool(decs) and cfg.all_paths_pass(cfg.ids(inc), [cfg.exit, cfg.exit_exc], decs)
+            if not ok and fi.name == '__enter__' and fi.cls is not None and '__exit__' in fi.cls.methods:
+                # a context manager class: __exit__ runs for every way out of the with block - it has to decrement on every path
+                ex = fi.cls.methods['__exit__']
+                ecfg = CFG(ex.node, m, ex.module)
+                edecs = [i for x in body_walk(ex.node) if isinstance(x, ast.AugAssign) and isinstance(x.op, ast.Sub) and isinstance(x.target, ast.Attribute)
+                         and x.target.attr == 'insideRW' for i in ecfg.ids(x)]
+                ok = bool(edecs) and ecfg.all_paths_pass([ecfg.entry], [ecfg.exit], edecs, exc=False)
             ctx.check(ok, f'{fi.qualname}:insideRW decremented on every exit', inc, 'every path from the increment to an exit (normal or exceptional) decrements',
                       f'after `{src(inc)}` there is an exit without the decrement (an exception in a member read / write, or thrown in at the yield '
                       'of the context manager): insideRW stays above zero, the member callbacks are disabled for good and the struct parameter '
